@@ -5,6 +5,7 @@ import (
 	"fmt"
 	"math/big"
 	"os"
+	"path/filepath"
 	"sync"
 	"time"
 
@@ -113,7 +114,8 @@ type Node struct {
 	LogDB   *logdb.LogDB
 	Node    *node.Node
 	Genesis *block.Block
-	Base    int  // number of writes issued by genesis construction (cuts start here)
+	Base    int // number of writes issued by genesis construction (cuts start here)
+	logDir  string
 	NoLogs  bool // run with Options.SkipLogs (crash images: the log db is a separate database, out of scope here)
 }
 
@@ -174,11 +176,18 @@ func (n *Node) open() error {
 	}
 	n.BFT = eng
 	if n.LogDB == nil && !n.NoLogs {
-		ldb, err := logdb.NewMem()
+		// a file database as the node uses (WAL); the shared-cache memory database of logdb.NewMem answers
+		// "database table is locked" to a reader that meets the writer
+		dir, err := os.MkdirTemp("", "verif-logdb")
+		if err != nil {
+			return err
+		}
+		ldb, err := logdb.New(filepath.Join(dir, "logs.db"), false, 4)
 		if err != nil {
 			return err
 		}
 		n.LogDB = ldb
+		n.logDir = dir
 	}
 	dir, _ := os.MkdirTemp("", "c13stash")
 	os.RemoveAll(dir)
@@ -192,7 +201,10 @@ func (n *Node) open() error {
 func (n *Node) Close() {
 	n.Node.VerifClose()
 	if n.LogDB != nil {
-		n.LogDB.Close()
+		// not waited for: database/sql blocks in Close while a log writer's transaction is still open
+		// (a failed log write leaves one behind: commitBlock only logs "failed to write logs")
+		dir := n.logDir
+		go func(l *logdb.LogDB) { l.Close(); os.RemoveAll(dir) }(n.LogDB)
 	}
 	n.DB.Close()
 }
